@@ -83,6 +83,7 @@ class FakeSlurm:
             open(p, "w").write(text.replace("__DIR__", self.dir).replace("__SQUEUE_DELAY__", str(squeue_delay)))
             os.chmod(p, os.stat(p).st_mode | stat.S_IXUSR)
         self.left = {}  # job id -> time it left the queue
+        self.frozen = False  # the cluster stops changing job states (set around undeploy, so that scancel does not race with a transition)
 
     def p(self, *a):
         return os.path.join(self.dir, *a)
@@ -115,7 +116,7 @@ class FakeSlurm:
                         if marker in text:
                             seen[n] = (time.monotonic(), plan)
             now = time.monotonic()
-            for n, (t0, (tp, tr, tc, out, code)) in seen.items():
+            for n, (t0, (tp, tr, tc, out, code)) in ([] if self.frozen else list(seen.items())):
                 if not self.queued(n):
                     continue
                 age = now - t0
@@ -171,6 +172,8 @@ async def history(with_undeploy):
         tasks = [asyncio.create_task(submit(k)) for k in range(njobs)]
         if with_undeploy:
             await asyncio.sleep(rng.uniform(0.1, 0.8))
+            fs.frozen = True
+            await asyncio.sleep(0.05)
             scheduled = sorted(slurm._scheduled_jobs)
             await slurm.undeploy(False)
             queued = sorted(n for n in os.listdir(fs.p("queue")) if not n.endswith(".tmp"))
@@ -217,7 +220,7 @@ def replay(path):
 
 
 def crosscheck(n):
-    k = max(10, int(n) // 5)
+    k = min(max(10, int(n) // 5), 150)  # a history takes 1.5-3 s of real time (the fake queue runs in real time)
     bad = asyncio.run(search(k))
     print(json.dumps({"inputs": k, "native_contract_failures": 1 if bad else 0, "samples": [bad] if bad else [], "known_findings": sorted(KNOWN)}, default=str))
     sys.exit(1 if bad else 0)
